@@ -1,5 +1,6 @@
 //! Correspondence harness: runs the real feoxdb code on generated cases and writes
 //! (a) the case lines for `modelrun` and (b) the implementation's canonical results.
+mod codec;
 mod fsm;
 mod img;
 mod mutimg;
@@ -17,9 +18,13 @@ fn main() {
     let code = match args[1].as_str() {
         "fs" => fsm::run(&opts),
         "img" => img::run(&opts),
+        "codec" => codec::run(&opts),
         "mutimg" => mutimg::run(&opts),
         "probe" => img::probe(&opts),
         "genimg" => img::genimg(&opts),
+        "reopen" => img::reopen(&opts),
+        "flushimg" => img::run_flushimg(&opts),
+        "golden" => img::run_golden(&opts),
         "replay" => replay(&opts),
         other => {
             eprintln!("unknown engine {other}");
